@@ -65,10 +65,31 @@ fn make_instance(r: &mut Rng, ring: &'static KeyRing, n_offered: usize, k: u8) -
     // is charged for it)
     let ref_mode = r.below(5) == 0;
     let params = vkit::ledger::Params { fee_a: 44, fee_b: 155_381, key_deposit: 2_000_000, pool_deposit: 500_000_000, coins_per_byte: 4310, max_value_size: 5000, max_tx_size: 16384, ex_prices: None, ref_script_price: if ref_mode { Some((15, 1)) } else { None } };
+    // now and then the configuration drops an explicit reference input that also becomes a regular input, the
+    // builder holds such a reference input, and the UTxO it names is offered by an address that already signs:
+    // selecting it makes the transaction SMALLER
+    let dedup_mode = r.below(8) == 0;
     let (cfg, _) = {
         let mut r2 = Rng::new(1);
         make_config(&params, &mut r2)
     };
+    let cfg = if dedup_mode {
+        let mut b = TransactionBuilderConfigBuilder::new()
+            .fee_algo(&LinearFee::new(&BigNum::from(params.fee_a), &BigNum::from(params.fee_b)))
+            .pool_deposit(&BigNum::from(params.pool_deposit))
+            .key_deposit(&BigNum::from(params.key_deposit))
+            .max_value_size(params.max_value_size as u32)
+            .max_tx_size(params.max_tx_size as u32)
+            .coins_per_utxo_byte(&BigNum::from(params.coins_per_byte))
+            .deduplicate_explicit_ref_inputs_with_regular_inputs(true);
+        if let Some((n, d)) = params.ref_script_price {
+            b = b.ref_script_coins_per_byte(&UnitInterval::new(&BigNum::from(n), &BigNum::from(d)));
+        }
+        b.build().unwrap()
+    } else {
+        cfg
+    };
+    let mut pre_addr: Option<Address> = None;
     let mut s = Scn::new(r, ring, Focus::default());
     let mut tb = TransactionBuilder::new(&cfg);
     let multi = k % 4 >= 2;
@@ -110,7 +131,8 @@ fn make_instance(r: &mut Rng, ring: &'static KeyRing, n_offered: usize, k: u8) -
     }
     // now and then tokens are burned: nothing is paid out in that asset, the inputs must still bring it
     let mut burned: Option<((Vec<u8>, Vec<u8>), i128)> = None;
-    if multi && s.r.below(5) == 0 {
+    // (under the ADA-only strategies too, now and then: they cannot collect the token, so all they may do is refuse)
+    if (multi || s.r.below(3) == 0) && s.r.below(5) == 0 {
         let ns = ring.natives[0].clone();
         let pid = ns.hash().to_bytes();
         let name = vec![0x62];
@@ -191,9 +213,10 @@ fn make_instance(r: &mut Rng, ring: &'static KeyRing, n_offered: usize, k: u8) -
     }
     // pre-existing input
     let mut pre = vec![];
-    if s.r.below(3) == 0 && !(with_withdrawal && s.r.bool()) {
+    if dedup_mode || (s.r.below(3) == 0 && !(with_withdrawal && s.r.bool())) {
         let kx = s.key_ix();
         let addr = s.key_address(kx);
+        pre_addr = Some(addr.clone());
         let v = Val::coin(*s.r.pick(&[1_000_000u64, 1_500_000, base, 300_000]));
         let i = s.new_utxo(&addr, v);
         let mut ib = TxInputsBuilder::new();
@@ -244,8 +267,15 @@ fn make_instance(r: &mut Rng, ring: &'static KeyRing, n_offered: usize, k: u8) -
             }
         }
         let kx = s.key_ix();
-        let addr = if s.r.below(8) == 0 { ring.byron[s.r.usize(ring.byron.len())].addr.to_address() } else { s.key_address(kx) };
+        let mut addr = if s.r.below(8) == 0 { ring.byron[s.r.usize(ring.byron.len())].addr.to_address() } else { s.key_address(kx) };
+        if dedup_mode && j == 0 {
+            addr = pre_addr.clone().unwrap();
+        }
         let i = s.new_utxo(&addr, v.clone());
+        if dedup_mode && j == 0 {
+            let o = s.outpoint(i);
+            tb.add_reference_input(&Scn::tx_input(&o));
+        }
         offered.push(i);
         let carried = if ref_mode && s.r.below(3) == 0 {
             let n = 200 + s.r.usize(2_000);
@@ -258,8 +288,8 @@ fn make_instance(r: &mut Rng, ring: &'static KeyRing, n_offered: usize, k: u8) -
         offered_csl.add(&s.csl_utxo(i, None, carried.as_ref()));
         off_desc.push(format!("#{} coin={} assets={:?}{}", j, v.coin, v.assets.values().collect::<Vec<_>>(), if carried.is_some() { format!(" script={}B", s.utxos[i].ref_script_size) } else { String::new() }));
     }
-    let desc = json!({"strategy": strat(k).1, "outputs": outs_desc, "offered": off_desc, "pre_existing": pre.iter().map(|i| s.utxos[*i].val.coin).collect::<Vec<_>>(), "withdrawal": implicit, "identical_outputs": identical, "burn": burned.as_ref().map(|(_, q)| q.to_string()), "set_min_fee": asked_min_fee, "mints_two_policies": !minted.is_empty(), "ref_script_price": ref_mode, "offered_includes_existing_input": overlap});
-    Some(Inst { tb, utxos: s.utxos, offered, pre, offered_csl, k, desc, outputs_have_assets, implicit, minted, no_reeval: ref_mode || overlap })
+    let desc = json!({"strategy": strat(k).1, "outputs": outs_desc, "offered": off_desc, "pre_existing": pre.iter().map(|i| s.utxos[*i].val.coin).collect::<Vec<_>>(), "withdrawal": implicit, "identical_outputs": identical, "burn": burned.as_ref().map(|(_, q)| q.to_string()), "set_min_fee": asked_min_fee, "mints_two_policies": !minted.is_empty(), "ref_script_price": ref_mode, "offered_includes_existing_input": overlap, "first_offered_is_a_reference_input_dropped_when_spent": dedup_mode});
+    Some(Inst { tb, utxos: s.utxos, offered, pre, offered_csl, k, desc, outputs_have_assets, implicit, minted, no_reeval: ref_mode || overlap || dedup_mode })
 }
 
 fn outpoints_of(tb: &TransactionBuilder) -> Vec<(Vec<u8>, u64)> {
@@ -459,7 +489,13 @@ fn run_leaf(ctx: &mut Ctx, inst: &Inst, tape: &[u64]) -> Vec<(u64, u64)> {
         Err(e) => {
             let msg = format!("{:?}", e);
             ctx.bucket(&format!("err.{}", sname));
-            if msg.contains("UTxO Balance Insufficient") && !inst.no_reeval {
+            // (an arithmetic error such as "underflow" out of the fee bookkeeping is no better than a false
+            // insufficiency report)
+            let arithmetic = msg.contains("underflow") || msg.contains("overflow");
+            if arithmetic {
+                ctx.bucket(&format!("err.arithmetic.{}", sname));
+            }
+            if (msg.contains("UTxO Balance Insufficient") && !inst.no_reeval) || arithmetic {
                 // refuted if the pre-state with ALL offered UTxOs covers outputs + fee
                 let mut tb2 = inst.tb.clone();
                 let mut ok = true;
@@ -480,7 +516,8 @@ fn run_leaf(ctx: &mut Ctx, inst: &Inst, tape: &[u64]) -> Vec<(u64, u64)> {
                                 let mut d = det();
                                 d["all_offered_hold"] = json!(h.coin.to_string());
                                 d["outputs_plus_min_fee_with_all"] = json!(n.coin.to_string());
-                                ctx.violation(&format!("insufficiency-reported-although-all-offered-utxos-suffice/{}", sname), d);
+                                d["error"] = json!(msg);
+                                ctx.violation(&format!("{}-although-all-offered-utxos-suffice/{}", if arithmetic { "arithmetic-error-reported" } else { "insufficiency-reported" }, sname), d);
                             } else {
                                 // the statement demands this of largest-first only; random strategies may fail on an unlucky draw
                                 ctx.bucket("info.random-strategy-insufficient-although-all-suffice");
